@@ -87,6 +87,60 @@ def noise_fn(gid, paths):
     return f"fn noise_{gid}(k: usize, s: &str) {{\n    match k % {max(1, len(paths))} {{\n{arms}\n        _ => {{}}\n    }}\n}}\n"
 
 
+ARITY_TOOL_DIR = os.path.join(corpus.BUILD, "acc_arity_tool")
+TARGET_DIR = None     # cargo target dir of the tool (default corpus.TARGET; the self-test uses its own)
+
+
+def generated_arities(grammars):
+    """Asks the generator under test (as a library, acc_common/arity_tool) which SeqN / ChoiceN types each grammar's
+    generated `generics` module defines in place (`seq!` / `choices!` expanded there: local types, the harness has to
+    implement its show-trait for them in the generated binary) and which it re-exports from the runtime crate.
+    Sets g["local_arities"] = [("Seq"|"Choice", n)...]."""
+    d = ARITY_TOOL_DIR if REPO == "/repo" else os.path.join(os.path.dirname(WS), "acc_arity_tool")
+    os.makedirs(os.path.join(d, "src"), exist_ok=True)
+    toml = f'''[package]
+name = "acc_arity"
+version = "0.0.0"
+edition = "2021"
+[workspace]
+[dependencies]
+pest_typed_generator = {{ path = "{REPO}/generator" }}
+proc-macro2 = "1"
+[profile.dev]
+debug = 0
+incremental = false
+'''
+    for path, text in ((os.path.join(d, "Cargo.toml"), toml), (os.path.join(d, "src", "main.rs"), open(os.path.join(HERE, "acc_common", "arity_tool", "main.rs")).read())):
+        if not os.path.exists(path) or open(path).read() != text:
+            open(path, "w").write(text)
+    subprocess.check_call(["cp", REPO + "/Cargo.lock", os.path.join(d, "Cargo.lock")])
+    rc, err = corpus.build_workspace(d, False, TARGET_DIR)
+    if rc != 0:
+        raise RuntimeError("acc_arity tool does not build against the generator:\n" + err[-3000:])
+    exe = os.path.join(TARGET_DIR or corpus.TARGET, "debug", "acc_arity")
+    inp = "".join(f"{g['gid']}\t{hexs(g['text'])}\n" for g in grammars)
+    out = subprocess.run([exe], input=inp, capture_output=True, text=True).stdout
+    by = {}
+    for line in out.splitlines():
+        f = line.split("\t")
+        if len(f) >= 4 and f[1] == "OK":
+            by[f[0]] = [x for x in f[2][len("local="):].split(",") if x]
+    for g in grammars:
+        if g["gid"] not in by:
+            raise RuntimeError(f"acc_arity: the generator gave no module for grammar {g['gid']}")
+        g["local_arities"] = [("Seq", int(x[3:])) if x.startswith("Seq") else ("Choice", int(x[6:])) for x in by[g["gid"]]]
+    return grammars
+
+
+def choice_macro_args(n):
+    parts = [f"(T{k}, _{k}, {k})," for k in range(n - 1)]
+    return f"Choice{n}, {n}, " + " ".join(parts) + f" ; (T{n - 1}, _{n - 1}, {n - 1})"
+
+
+def seq_macro_args(n):
+    return f"Seq{n}, {n}, " + " ".join(f"(T{k}, {k})," for k in range(n))
+
+
 MOD_T = '''
 pub mod t_@GID@ {
     use pest_typed_derive::TypedParser;
@@ -101,6 +155,11 @@ def derived_code(g):
     gid = g["gid"]
     code = [fill(MOD_T, GID=gid, TEXT=g["text"])]
     impls = [f"mod acc_{gid} {{", f"    use super::t_{gid} as g;", "    use g::generics;", "    use acc_common::AccShow;"]
+    # the SeqN / ChoiceN types this module defines itself (reported by the generator): local types, so the trait of
+    # acc_common can be implemented for them here; library arities are implemented in acc_common (build.rs)
+    for kind_, n in g.get("local_arities", []):
+        impls.append(f"    use g::generics::{kind_}{n};")
+        impls.append(f"    acc_common::acc_{'seq' if kind_ == 'Seq' else 'choice'}!({seq_macro_args(n) if kind_ == 'Seq' else choice_macro_args(n)});")
     impls.append(rule_impl("g::rules::EOI", "EOI", "Both"))
     fns, arms, paths = [], [], []
     for (rname, kind) in g["rules"]:
@@ -151,7 +210,7 @@ def emit_workspace(derived, raw, outdir=WS, nbins=NBINS, prefix="a"):
     bins = [[] for _ in range(nbins)]
     loads = [0] * nbins
     where = {}
-    allg = [("d", g, len(g["rules"]) + 3 + 9 * len(g.get("custom", {}))) for g in derived] + \
+    allg = [("d", g, len(g["rules"]) + 3 + 9 * len(g.get("custom", {})) + sum(n for _, n in g.get("local_arities", [])) // 2) for g in derived] + \
            [("r", g, len(g["rules"]) // 3 + 2) for g in raw]
     for kind, g, w in sorted(allg, key=lambda x: -x[2]):
         k = loads.index(min(loads))
